@@ -52,6 +52,9 @@ struct Case {
     events: bool,
     /// io::ErrorKind of the read / write error ("" = ConnectionReset / BrokenPipe)
     err_kind: String,
+    /// this many further requests were written and then abandoned by their callers before the fault: their stream ids are
+    /// orphaned (the peer still owes the responses) when the fault strikes
+    orphans: usize,
 }
 
 const CUT_KINDS: [&str; 7] = ["eof", "read-error", "write-error", "silence", "silence-after-keepalive", "silence-busy", "silence-hinted"];
@@ -69,12 +72,12 @@ fn is_silence(k: &str) -> bool {
     matches!(k, "silence" | "silence-after-keepalive" | "silence-busy" | "silence-hinted")
 }
 fn breaks_connection(k: &str) -> bool {
-    !matches!(k, "negative-stream" | "event-stream" | "orphans-at-threshold")
+    !matches!(k, "negative-stream" | "event-stream" | "orphans-at-threshold" | "orphan-late-response")
 }
 
 impl Case {
     fn to_json(&self, choices: &[usize]) -> Value {
-        json!({"leg":"router-faults","n":self.n,"answer":self.answer,"kind":self.kind,"cut":self.cut,"late":self.late,"coalescing":self.coalescing,"read_chunk":self.read_chunk,"keepalive_everywhere":self.keepalive_everywhere,"prefill":self.prefill,"big":self.big,"wblock":self.wblock,"capacity":self.capacity,"events":self.events,"err_kind":self.err_kind,"choices":choices})
+        json!({"leg":"router-faults","n":self.n,"answer":self.answer,"kind":self.kind,"cut":self.cut,"late":self.late,"coalescing":self.coalescing,"read_chunk":self.read_chunk,"keepalive_everywhere":self.keepalive_everywhere,"prefill":self.prefill,"big":self.big,"wblock":self.wblock,"capacity":self.capacity,"events":self.events,"err_kind":self.err_kind,"orphans":self.orphans,"choices":choices})
     }
     fn from_json(v: &Value) -> Case {
         Case {
@@ -92,6 +95,7 @@ impl Case {
             capacity: v["capacity"].as_u64().unwrap_or(0) as usize,
             events: v["events"].as_bool().unwrap_or(false),
             err_kind: v["err_kind"].as_str().unwrap_or("").to_string(),
+            orphans: v["orphans"].as_u64().unwrap_or(0) as usize,
         }
     }
 }
@@ -175,6 +179,24 @@ async fn drive(case: &Case, ch: &mut Chooser, w: &mut World, run: &mut Run) -> R
     } else {
         case.answer.clone()
     };
+    // requests written and then abandoned: their stream ids are orphaned (marked, still reserved) when the fault strikes
+    let mut orphan_streams: Vec<i16> = Vec::new();
+    if case.orphans > 0 {
+        let first = w.callers.len();
+        for k in 0..case.orphans {
+            w.start_caller(caller_spec(30 + k));
+        }
+        w.quiesce(ch, 400 + 20 * w.callers.len()).await?;
+        w.ingest()?;
+        for i in first..first + case.orphans {
+            match w.callers[i].stream {
+                Some(s) => orphan_streams.push(s),
+                None => return Err(format!("harness|the request of the caller to be abandoned (#{i}) did not reach the peer")),
+            }
+            w.cancel_caller(i);
+        }
+        w.quiesce(ch, 400 + 20 * w.callers.len()).await?;
+    }
     // the byte stream the peer writes
     let mut frames: Vec<(usize, Vec<u8>)> = Vec::new();
     for &c in &answer {
@@ -283,6 +305,14 @@ async fn drive(case: &Case, ch: &mut Chooser, w: &mut World, run: &mut Run) -> R
                 let s = frames[..k].last().map(|(c, _)| w.callers[*c].stream.unwrap()).unwrap_or(free_stream);
                 Frame::response(s, OP_RESULT, b"second-answer").encode()
             }
+            "orphan-late-response" => {
+                // the late answer to an abandoned request: must be swallowed, nothing else happens
+                let s = *orphan_streams.first().ok_or("harness|orphan-late-response without an orphan")?;
+                let p = w.held.iter().position(|h| h.stream == s).ok_or("harness|the peer does not hold the abandoned request")?;
+                let f = w.response_frame(&w.held[p].clone()).encode();
+                w.mark_answered(p);
+                f
+            }
             "negative-stream" => Frame::response(-2, OP_RESULT, b"neg").encode(),
             "event-stream" if case.events => event_frame(7).encode(),
             "event-stream" => Frame::response(-1, 0x0C, b"\x00\x0fTOPOLOGY_CHANGE").encode(),
@@ -321,7 +351,7 @@ async fn drive(case: &Case, ch: &mut Chooser, w: &mut World, run: &mut Run) -> R
     if !breaking {
         // the connection must have survived: the peer now answers everything it still holds, in order
         if w.router_done() || w.error_seen.is_some() {
-            return Err(format!("spurious-break|{} must not cost the connection, but it broke: {:?}", if case.kind == ORPHANS_AT_THRESHOLD { "exactly the tolerated number of old orphaned stream ids" } else { "a frame on a negative stream / a well-formed event" }, w.error_seen));
+            return Err(format!("spurious-break|{} must not cost the connection, but it broke: {:?}", if case.kind == ORPHANS_AT_THRESHOLD { "exactly the tolerated number of old orphaned stream ids" } else { "a frame on a negative stream / a well-formed event / the late answer to an abandoned request" }, w.error_seen));
         }
         let mut guard = 0;
         while let Some(pos0) = w.held.iter().position(|h| h.caller.map(|c| !w.callers[c].cancelled).unwrap_or(true)) {
@@ -555,10 +585,10 @@ fn cases(thorough: bool) -> Vec<Case> {
                         for late in lates {
                             let chunks: Vec<usize> = if matches!(kind, "silence-busy" | "silence-hinted") { vec![0] } else { vec![0, 1] };
                             for read_chunk in chunks {
-                                v.push(Case { n, answer: answer.clone(), kind: kind.to_string(), cut, late, coalescing: co.to_string(), read_chunk, keepalive_everywhere: false, prefill: 0, big: 0, wblock: -1, capacity: 0, events: false, err_kind: String::new() });
+                                v.push(Case { n, answer: answer.clone(), kind: kind.to_string(), cut, late, coalescing: co.to_string(), read_chunk, keepalive_everywhere: false, prefill: 0, big: 0, wblock: -1, capacity: 0, events: false, err_kind: String::new(), orphans: 0 });
                                 if thorough && !is_silence(kind) && read_chunk == 0 {
                                     // the same fault with the keep-aliver armed (its select! and timers are then part of the joined router)
-                                    v.push(Case { n, answer: answer.clone(), kind: kind.to_string(), cut, late, coalescing: co.to_string(), read_chunk, keepalive_everywhere: true, prefill: 0, big: 0, wblock: -1, capacity: 0, events: false, err_kind: String::new() });
+                                    v.push(Case { n, answer: answer.clone(), kind: kind.to_string(), cut, late, coalescing: co.to_string(), read_chunk, keepalive_everywhere: true, prefill: 0, big: 0, wblock: -1, capacity: 0, events: false, err_kind: String::new(), orphans: 0 });
                                 }
                             }
                         }
@@ -566,16 +596,16 @@ fn cases(thorough: bool) -> Vec<Case> {
                 }
                 if co == "yield" {
                     for late in [false, true] {
-                        v.push(Case { n, answer: answer.clone(), kind: ORPHAN_OVERFLOW.to_string(), cut: 0, late, coalescing: co.to_string(), read_chunk: 0, keepalive_everywhere: false, prefill: 0, big: 0, wblock: -1, capacity: 0, events: false, err_kind: String::new() });
+                        v.push(Case { n, answer: answer.clone(), kind: ORPHAN_OVERFLOW.to_string(), cut: 0, late, coalescing: co.to_string(), read_chunk: 0, keepalive_everywhere: false, prefill: 0, big: 0, wblock: -1, capacity: 0, events: false, err_kind: String::new(), orphans: 0 });
                         if n <= 2 {
-                            v.push(Case { n, answer: answer.clone(), kind: ORPHANS_AT_THRESHOLD.to_string(), cut: 0, late, coalescing: co.to_string(), read_chunk: 0, keepalive_everywhere: false, prefill: 0, big: 0, wblock: -1, capacity: 0, events: false, err_kind: String::new() });
+                            v.push(Case { n, answer: answer.clone(), kind: ORPHANS_AT_THRESHOLD.to_string(), cut: 0, late, coalescing: co.to_string(), read_chunk: 0, keepalive_everywhere: false, prefill: 0, big: 0, wblock: -1, capacity: 0, events: false, err_kind: String::new(), orphans: 0 });
                         }
                     }
                 }
                 for kind in BAD_KINDS {
                     for k in 0..=answer.len() {
                         for late in [false, true] {
-                            v.push(Case { n, answer: answer.clone(), kind: kind.to_string(), cut: k, late, coalescing: co.to_string(), read_chunk: 0, keepalive_everywhere: false, prefill: 0, big: 0, wblock: -1, capacity: 0, events: false, err_kind: String::new() });
+                            v.push(Case { n, answer: answer.clone(), kind: kind.to_string(), cut: k, late, coalescing: co.to_string(), read_chunk: 0, keepalive_everywhere: false, prefill: 0, big: 0, wblock: -1, capacity: 0, events: false, err_kind: String::new(), orphans: 0 });
                         }
                     }
                 }
@@ -592,7 +622,7 @@ fn cases(thorough: bool) -> Vec<Case> {
                     if !thorough && (read_chunk == 4096 || kind == "read-error") && big % 2 == 0 {
                         continue;
                     }
-                    v.push(Case { n: 2, answer, kind: kind.to_string(), cut, late: false, coalescing: "yield".into(), read_chunk, keepalive_everywhere: false, prefill: 0, big, wblock: -1, capacity: 0, events: false, err_kind: String::new() });
+                    v.push(Case { n: 2, answer, kind: kind.to_string(), cut, late: false, coalescing: "yield".into(), read_chunk, keepalive_everywhere: false, prefill: 0, big, wblock: -1, capacity: 0, events: false, err_kind: String::new(), orphans: 0 });
                 }
             }
         }
@@ -614,8 +644,32 @@ fn cases(thorough: bool) -> Vec<Case> {
                         }
                         for (answer, cut) in answers {
                             for late in [false, true] {
-                                v.push(Case { n, answer: answer.clone(), kind: kind.to_string(), cut, late, coalescing: co.to_string(), read_chunk: 0, keepalive_everywhere: kind != "silence" && late, prefill: 0, big: 0, wblock: k as i64, capacity: 0, events: false, err_kind: String::new() });
+                                v.push(Case { n, answer: answer.clone(), kind: kind.to_string(), cut, late, coalescing: co.to_string(), read_chunk: 0, keepalive_everywhere: kind != "silence" && late, prefill: 0, big: 0, wblock: k as i64, capacity: 0, events: false, err_kind: String::new(), orphans: 0 });
                             }
+                        }
+                    }
+                }
+            }
+        }
+    }
+    // abandoned requests (orphaned stream ids) present when the fault strikes: a frame on an id that is neither registered
+    // nor orphaned (never used / already answered) must still tear the connection down and fail everyone, the late answer
+    // to the orphaned id itself must be tolerated, and the cut kinds must fail everyone as before
+    for n in 1..=(if thorough { 3usize } else { 2 }) {
+        for answer in answer_sequences(n, thorough) {
+            let total: usize = answer.iter().map(|&c| frame_len(c)).sum();
+            for orphans in [1usize, 2] {
+                for late in [false, true] {
+                    for k in 0..=answer.len() {
+                        for kind in ["unsolicited-stream", "duplicate-response", "orphan-late-response", "garbage-header", "negative-stream"] {
+                            v.push(Case { n, answer: answer.clone(), kind: kind.to_string(), cut: k, late, coalescing: "yield".into(), read_chunk: 0, keepalive_everywhere: false, prefill: 0, big: 0, wblock: -1, capacity: 0, events: false, err_kind: String::new(), orphans });
+                        }
+                    }
+                    let mut cuts = vec![0usize, 4.min(total), total];
+                    cuts.dedup();
+                    for cut in cuts {
+                        for kind in ["eof", "read-error", "silence"] {
+                            v.push(Case { n, answer: answer.clone(), kind: kind.to_string(), cut, late, coalescing: "yield".into(), read_chunk: 0, keepalive_everywhere: false, prefill: 0, big: 0, wblock: -1, capacity: 0, events: false, err_kind: String::new(), orphans });
                         }
                     }
                 }
@@ -629,7 +683,7 @@ fn cases(thorough: bool) -> Vec<Case> {
             for k in 0..=answer.len() {
                 for late in [false, true] {
                     for kind in ["event-stream", EVENT_BAD_KINDS[0], EVENT_BAD_KINDS[1], "negative-stream", "unsolicited-stream"] {
-                        v.push(Case { n, answer: answer.clone(), kind: kind.to_string(), cut: k, late, coalescing: "yield".into(), read_chunk: 0, keepalive_everywhere: false, prefill: 0, big: 0, wblock: -1, capacity: 0, events: true, err_kind: String::new() });
+                        v.push(Case { n, answer: answer.clone(), kind: kind.to_string(), cut: k, late, coalescing: "yield".into(), read_chunk: 0, keepalive_everywhere: false, prefill: 0, big: 0, wblock: -1, capacity: 0, events: true, err_kind: String::new(), orphans: 0 });
                     }
                 }
             }
@@ -645,7 +699,7 @@ fn cases(thorough: bool) -> Vec<Case> {
             for cut in cuts {
                 for ek in IO_KINDS {
                     for (kind, late) in [("read-error", false), ("read-error", true), ("write-error", true)] {
-                        v.push(Case { n, answer: answer.clone(), kind: kind.to_string(), cut, late, coalescing: "yield".into(), read_chunk: 0, keepalive_everywhere: false, prefill: 0, big: 0, wblock: -1, capacity: 0, events: false, err_kind: ek.to_string() });
+                        v.push(Case { n, answer: answer.clone(), kind: kind.to_string(), cut, late, coalescing: "yield".into(), read_chunk: 0, keepalive_everywhere: false, prefill: 0, big: 0, wblock: -1, capacity: 0, events: false, err_kind: ek.to_string(), orphans: 0 });
                     }
                 }
             }
@@ -660,7 +714,7 @@ fn cases(thorough: bool) -> Vec<Case> {
                 for n in [2usize, 3, 4] {
                     for late in [false, true] {
                         for kind in ["silence", "silence-after-keepalive"] {
-                            v.push(Case { n, answer: vec![], kind: kind.to_string(), cut: 0, late, coalescing: co.to_string(), read_chunk: 0, keepalive_everywhere: false, prefill: 0, big: 0, wblock: k as i64, capacity: 1, events: false, err_kind: String::new() });
+                            v.push(Case { n, answer: vec![], kind: kind.to_string(), cut: 0, late, coalescing: co.to_string(), read_chunk: 0, keepalive_everywhere: false, prefill: 0, big: 0, wblock: k as i64, capacity: 1, events: false, err_kind: String::new(), orphans: 0 });
                         }
                     }
                 }
@@ -668,7 +722,7 @@ fn cases(thorough: bool) -> Vec<Case> {
             // the same with the channel exactly as Connection::new makes it: its real capacity (read back through the hook) + 8 callers
             let real = real_submit_capacity();
             for k in [0usize, f0] {
-                v.push(Case { n: real + 8, answer: vec![], kind: "silence".to_string(), cut: 0, late: true, coalescing: co.to_string(), read_chunk: 0, keepalive_everywhere: false, prefill: 0, big: 0, wblock: k as i64, capacity: 0, events: false, err_kind: String::new() });
+                v.push(Case { n: real + 8, answer: vec![], kind: "silence".to_string(), cut: 0, late: true, coalescing: co.to_string(), read_chunk: 0, keepalive_everywhere: false, prefill: 0, big: 0, wblock: k as i64, capacity: 0, events: false, err_kind: String::new(), orphans: 0 });
             }
         }
     }
@@ -686,7 +740,7 @@ fn cases(thorough: bool) -> Vec<Case> {
                 for cut in cuts {
                     for kind in ["silence", "silence-after-keepalive"] {
                         for late in [false, true] {
-                            v.push(Case { n, answer: answer.clone(), kind: kind.to_string(), cut, late, coalescing: "yield".into(), read_chunk: 0, keepalive_everywhere: false, prefill: 32768 - j, big: 0, wblock: -1, capacity: 0, events: false, err_kind: String::new() });
+                            v.push(Case { n, answer: answer.clone(), kind: kind.to_string(), cut, late, coalescing: "yield".into(), read_chunk: 0, keepalive_everywhere: false, prefill: 32768 - j, big: 0, wblock: -1, capacity: 0, events: false, err_kind: String::new(), orphans: 0 });
                         }
                     }
                 }
@@ -753,6 +807,9 @@ fn main() {
                 case_mixed.store(true, Ordering::Relaxed);
             }
             r_ref.counters.add(&format!("executions_kind_{}", case.kind), 1);
+            if case.orphans > 0 {
+                r_ref.counters.add("executions_with_orphaned_ids_present_at_the_fault", 1);
+            }
             if case.prefill > 0 {
                 r_ref.counters.add("executions_with_stream_ids_exhausted_or_nearly(prefill 32768-j)", 1);
             }
@@ -801,7 +858,7 @@ fn main() {
             }
             if let Err(wt) = &verdict {
                 let (k, t) = split_key(wt);
-                r_ref.violation(&format!("{k}:{}", case.kind), &format!("{t} [case: n={} answered={:?} kind={} cut={} late={} coalescing={} read_chunk={}{}{}{}]", case.n, case.answer, case.kind, if case.cut == usize::MAX { "end".to_string() } else { case.cut.to_string() }, case.late, case.coalescing, case.read_chunk, if case.wblock >= 0 { format!(" peer-stops-reading-after={}B submit-capacity={}", case.wblock, if case.capacity == 0 { "default".to_string() } else { case.capacity.to_string() }) } else { String::new() }, if case.prefill > 0 { format!(" prefilled-ids={}", case.prefill) } else { String::new() }, format!("{}{}{}", if case.big > 0 { format!(" big-body={}", case.big) } else { String::new() }, if case.events { " event-sender" } else { "" }, if case.err_kind.is_empty() { String::new() } else { format!(" io-kind={}", case.err_kind) })), case.to_json(&choices));
+                r_ref.violation(&format!("{k}:{}", case.kind), &format!("{t} [case: n={} answered={:?} kind={} cut={} late={} coalescing={} read_chunk={}{}{}{}]", case.n, case.answer, case.kind, if case.cut == usize::MAX { "end".to_string() } else { case.cut.to_string() }, case.late, case.coalescing, case.read_chunk, if case.wblock >= 0 { format!(" peer-stops-reading-after={}B submit-capacity={}", case.wblock, if case.capacity == 0 { "default".to_string() } else { case.capacity.to_string() }) } else { String::new() }, if case.prefill > 0 { format!(" prefilled-ids={}", case.prefill) } else { String::new() }, format!("{}{}{}", if case.big > 0 { format!(" big-body={}", case.big) } else { String::new() }, if case.events { " event-sender" } else { "" }, if case.err_kind.is_empty() { String::new() } else { format!(" io-kind={}", case.err_kind) }) + &if case.orphans > 0 { format!(" orphaned-ids-present={}", case.orphans) } else { String::new() }), case.to_json(&choices));
             }
             verdict.map(|_| ())
         });
@@ -846,7 +903,7 @@ fn main() {
     for c in all.iter().filter(|c| c.n == 3 && c.answer.len() == 2).take(2) {
         r.sample(c.to_json(&[]));
     }
-    r.set_rule(&format!("E-ASYNC fault enumeration on the real Connection::router: n=1..3 requests in flight x ordered subsets of answered requests ({}) x EVERY cut offset 0..=len of the response byte stream x {{eof, read-error, write-error(+a later request), silence with keep-alive {KEEPALIVE_INTERVAL_MS}/{KEEPALIVE_TIMEOUT_MS}ms and virtual time advanced past both, silence after one answered keep-alive}} and, after every whole number of frames, x {{garbage header, version 3, client-direction bit, unknown opcode, frame on a stream nobody waits on, second answer on an answered stream, negative stream, event frame}}; plus the driver's own give-up (1030 abandoned requests unanswered for over a second) per answered subset; plus response bodies of 32767/32768/32769/40000/65535/65536/65537/100000 bytes written back-to-back with the next response in one delivery (unlimited / 4096 / 50000-byte reads) before the fault; plus every io::ErrorKind in (ConnectionReset, ConnectionAborted, BrokenPipe, NotConnected, TimedOut, Interrupted, WouldBlock, UnexpectedEof, InvalidData, Other) for read and write errors; silence while the application keeps submitting a request every 100 ms, silence with an explicit keep-alive hint; a control connection (event sender) receiving well-formed events / a malformed event / a non-event on stream -1; exactly the tolerated number of old orphans (must survive) and one more (must give up); plus a FULL submit queue at the keep-alive tick (peer silent and not reading; submit-channel capacity 1 with 2..4 callers, and the real capacity read back through the hook + 8 callers); plus 'peer stops reading' (the stream accepts 0 / 5 / one frame / one frame + 5 request bytes, then writes stay pending; 1..2 callers with requests queued, unflushed or half-written; coalescing yield/off) x {{silence + keep-alive timeout, EOF, read error, garbage header, unsolicited stream}}; plus stream-id exhaustion x silent stall x keep-alive (router map pre-filled by 32768-j real allocate calls, j=0,1,2, 1..2 callers, every pre-filled handler must be failed too); x a late request after the fault; every case explored by E-DFS over task scheduling and fault timing (fault together with / after the bytes) up to deviation bound {bound} (n=3) / {} (n<=2). evaluations = executions; distinct_nontrivial = distinct cases in which at the fault some request was completely or partially answered while another (or the same) was still owed. replays for the determinism audit: 1 in {audit_every} executions, full observation trace compared.", "all 1+2+5+16 of them; write coalescing yield/off (thorough: +1ms, + keep-aliver armed during the other faults)", if thorough { bound } else { bound + 1 }));
+    r.set_rule(&format!("E-ASYNC fault enumeration on the real Connection::router: n=1..3 requests in flight x ordered subsets of answered requests ({}) x EVERY cut offset 0..=len of the response byte stream x {{eof, read-error, write-error(+a later request), silence with keep-alive {KEEPALIVE_INTERVAL_MS}/{KEEPALIVE_TIMEOUT_MS}ms and virtual time advanced past both, silence after one answered keep-alive}} and, after every whole number of frames, x {{garbage header, version 3, client-direction bit, unknown opcode, frame on a stream nobody waits on, second answer on an answered stream, negative stream, event frame}}; plus the driver's own give-up (1030 abandoned requests unanswered for over a second) per answered subset; plus response bodies of 32767/32768/32769/40000/65535/65536/65537/100000 bytes written back-to-back with the next response in one delivery (unlimited / 4096 / 50000-byte reads) before the fault; plus 1..2 abandoned requests (orphaned ids) present at the fault x (frame on a never-used id, second answer on an answered id, late answer to the orphaned id itself - which must be tolerated -, garbage header, negative stream, eof, read error, silence); plus every io::ErrorKind in (ConnectionReset, ConnectionAborted, BrokenPipe, NotConnected, TimedOut, Interrupted, WouldBlock, UnexpectedEof, InvalidData, Other) for read and write errors; silence while the application keeps submitting a request every 100 ms, silence with an explicit keep-alive hint; a control connection (event sender) receiving well-formed events / a malformed event / a non-event on stream -1; exactly the tolerated number of old orphans (must survive) and one more (must give up); plus a FULL submit queue at the keep-alive tick (peer silent and not reading; submit-channel capacity 1 with 2..4 callers, and the real capacity read back through the hook + 8 callers); plus 'peer stops reading' (the stream accepts 0 / 5 / one frame / one frame + 5 request bytes, then writes stay pending; 1..2 callers with requests queued, unflushed or half-written; coalescing yield/off) x {{silence + keep-alive timeout, EOF, read error, garbage header, unsolicited stream}}; plus stream-id exhaustion x silent stall x keep-alive (router map pre-filled by 32768-j real allocate calls, j=0,1,2, 1..2 callers, every pre-filled handler must be failed too); x a late request after the fault; every case explored by E-DFS over task scheduling and fault timing (fault together with / after the bytes) up to deviation bound {bound} (n=3) / {} (n<=2). evaluations = executions; distinct_nontrivial = distinct cases in which at the fault some request was completely or partially answered while another (or the same) was still owed. replays for the determinism audit: 1 in {audit_every} executions, full observation trace compared.", "all 1+2+5+16 of them; write coalescing yield/off (thorough: +1ms, + keep-aliver armed during the other faults)", if thorough { bound } else { bound + 1 }));
     r.assume("write error alone is invisible to a router that has nothing to write: that kind always adds a later request, which must make the router notice");
     r.assume("select!-branch randomness inside the router is audited by trace-equal replays, not owned");
     r.finish();
